@@ -49,6 +49,9 @@ PROPS = {
               "pncounter.apply", "pncounter.merge", "pncounter.inc", "pncounter.dec", "pncounter.inc_many", "pncounter.dec_many", "pncounter.read",
               "gset.*", "maxreg.*", "minreg.*", "lww.apply", "lww.merge", "lww.validate_op", "lww.validate_merge"],
              extra_as=["LWWReg: markers are unique (the same marker is never written with two values) for the convergence clause"]),
+    "C12": P(["list", "glist"], ["list.apply", "list.insert_index", "list.append", "list.delete_index", "list.read", "list.len", "list.position", "list.validate_op", "ident.*", "glist.apply", "glist.merge", "glist.read"],
+             streams=("structured",),
+             extra_as=["ops are delivered in causal order (the documented contract of List); duplicates allowed", "ops are generated through insert_index / append / delete_index"]),
     "C13": P(["list", "glist"], ["list.*", "glist.*", "ident.*"], all_inputs=True,
              extra_as=["states satisfy the representation invariant (strictly sorted, no empty identifier): proved for every state reachable by applying ops with non-empty identifiers; the API never produces an empty identifier"]),
     "C14": P(["glist"], ["ident.*"], all_inputs=True, quick=1500,
@@ -57,4 +60,7 @@ PROPS = {
     "C15": P(["merkle"], ["merkle.*"], all_inputs=True,
              extra_tb=["SHA3-256 content addressing modelled as an arbitrary injective function (premise of the theorems, no axiom); the driver maps real hashes to fresh model hashes"],
              extra_as=["distinct nodes have distinct hashes (collision-freedom of SHA3)"]),
+    "C18": P(["vclock", "gcounter", "pncounter", "mvreg", "orswot", "mapmv", "mapor", "mapmm"],
+             ["*.reset", "vclock.clone_without"], all_inputs=False,
+             extra_as=["states are well-formed (no stored zero, no stored empty witness clock, witness clocks below the top clock): proved for reachable Orswot states; assumed for Map states, where it is checked by the monitor on every sampled state"]),
 }
